@@ -1,17 +1,24 @@
 """C11 Compiling a definition does not depend on session history.
 
 Domain: histories (Hypothesis-drawn lists of 3-14 steps) over one interpreter session holding a pool
-of ~16 definitions: functions calling each other, a generic function and a generic struct at two
+of ~40 definitions: functions calling each other, a generic function and a generic struct at two
 instantiations, a nested recursive capturing closure, comptime functions, an overloaded function,
-arrays / comptime constants, a quantum function, two GenProg-drawn functions per pool, and failing
+arrays / comptime constants, a quantum function, two GenProg-drawn functions per pool, failing
 definitions (type error, linearity error, Python exception and Guppy error inside a comptime body,
-a comptime expression calling a Guppy function).  Steps: check / compile / compile_function of any
-definition, definition of an unrelated new function, (thorough) emulate.
+a comptime expression calling a Guppy function, broken structs, broken overload variants), and a
+*scoped section* drawn per seed (scoped_specs): definitions created at module level and inside 2-3
+Python functions (local scopes), each with 0-3 nested functions (recursive or not, capturing or not,
+each possibly calling a module-level function) whose names, like the global names the bodies use, come
+from one small universe - so a name is at the same time a module-level guppy function, a nested
+function of a definition in another scope, a guppy function local to a Python scope, or bound nowhere.
+Steps: check / compile / compile_function of any definition, definition of an unrelated new function,
+(thorough) emulate.
 Each history runs in a forked child of a pristine interpreter (guppylang imported, nothing defined or
 compiled), so a history is exactly a session.
-Oracle: the outcome of every step - canonical HUGR (JSON serial form with generated %tmp names
-renumbered in first-occurrence order) or rendered diagnostic / exception - equals the outcome of the
-same single step in a fresh interpreter with empty history."""
+Oracle: the outcome of every step - canonical HUGR (JSON serial form, i.e. including the order of the
+function definitions in the module, with generated %tmp names renumbered in first-occurrence order) or
+rendered diagnostic / exception - equals the outcome of the same single step in a fresh interpreter
+with empty history.  References are computed on demand (RefStore) and shared between the shards."""
 import hashlib
 import json
 import os
@@ -214,7 +221,7 @@ SC_PRIVATE = ["p0", "p1", "p2"]              # names used for nested functions o
 #    variable of that Python function, which the next frame.f_locals sync restores.  Reported as a
 #    finding (bucket ...nested_name_leak.same_scope); the generator renames such nested functions to a
 #    private name while the switch is set.
-EXCLUDE = {"same_scope_nested_name_clash"}
+EXCLUDE = set()  # {"same_scope_nested_name_clash"} was excluded until the defect was fixed in /repo (3ae49ce)
 
 
 def scoped_specs(st, max_local_scopes=3):
@@ -867,14 +874,20 @@ def worker(ctx):
 
 SPEC = harness.Spec(
     PROP, worker, replay,
-    rule=("a history is a list of 3-14 steps (check / compile_function / compile of one of 21 pool definitions incl. 7 failing ones, "
-          "definition+compile of an unrelated new function, thorough: emulate) executed in ONE fresh interpreter; each step's outcome "
+    rule=("a history is a list of 3-14 steps (check / compile_function / compile of one of ~40 pool definitions: 28 fixed ones incl. 14 "
+          "failing ones, 2 GenProg-drawn ones and 6-8 drawn per seed that are created at module level and inside Python functions and "
+          "hold nested functions whose names clash with global names used from other scopes; definition+compile of an unrelated new "
+          "function; thorough: emulate) executed in ONE fresh interpreter; each step's outcome "
           "(canonical HUGR hash, rendered diagnostic, or exception) is compared with the outcome of that single step in a fresh "
-          "interpreter. Histories are biased to contain repeats and a failing step before a successful one. non-trivial = history of "
+          "interpreter. Histories are biased to contain repeats, a failing step before a successful one, back-to-back operations on one "
+          "definition, and a definition holding a recursive nested function N before one that uses a global N. non-trivial = history of "
           "length >= 4 with a repeated step or a failing definition processed before a good one; distinct = distinct history"),
     assumptions=["canonical form = JSON serial form of the package with %tmpN / __WithBlock__(N) names renumbered in first-occurrence order",
                  "diagnostics are compared as rendered text; module names are identical in every session",
-                 "each history runs in its own interpreter process, so the session is exactly the history"],
+                 "each history runs in its own interpreter process, so the session is exactly the history",
+                 "the first step of a history is a single step in a fresh session, so its outcome may serve as the reference of that step",
+                 "excluded by construction (EXCLUDE, reported as a finding): a non-capturing recursive nested function whose name another "
+                 "definition created by the same frame (module-level: any definition of the module) uses as a global name"],
     shards={"quick": 16, "thorough": 16},
     budget_s={"quick": 100, "thorough": 1200},
     params={"quick": {"n": 60, "steps": 10, "local_scopes": 2}, "thorough": {"n": 1500, "steps": 14, "emulate": True}},
